@@ -350,9 +350,11 @@ impl Stats {
             .map_err(|e| SerializationError::InvalidVarIntPrefix)?;
 
         //  It is impossible to avoid this copy here unless we fuck up the whole blob data structure since blob does not guarantee alignment.
-        let mut aligned = AlignedVec::<4>::new();
+        // Statistics hold 8-byte values, so the copy must be aligned to 8 (and it is the copy that
+        // has to be read, not the unaligned blob).
+        let mut aligned = AlignedVec::<8>::new();
         aligned.extend_from_slice(data);
-        let stats = from_bytes::<Stats, RkyvError>(data)?;
+        let stats = from_bytes::<Stats, RkyvError>(&aligned)?;
         Ok(stats)
     }
 }
